@@ -32,10 +32,13 @@ static uint64_t af_count_small(void)
         return t;
 }
 
+/* long members: rows longer than the 512-byte growth step of the sequence buffers, read from aligned FASTA, with gap
+   runs directly before residue index 512 / 1024 of a row and rows of exactly 512 / 1024 residues followed by gaps */
+#define AF_NLONG 8
 static uint64_t af_count(int tier)
 {
         (void)tier;
-        return af_count_run() + af_count_small();
+        return af_count_run() + af_count_small() + AF_NLONG;
 }
 
 struct af_member {
@@ -137,6 +140,61 @@ static int af_build(uint64_t idx, long seed, const char* tmpdir, struct af_membe
                 }
                 kx_set_free(&in);
                 return a->valid;
+        }else if(idx >= af_count_run() + af_count_small()){
+                int k = (int)(idx - af_count_run() - af_count_small());
+                int w = (k & 1) ? 1100 : 600, i, j;
+                int runlen = (k & 2) ? 1 : 8;
+                int protein = (k & 4) ? 1 : 0;
+                uint64_t st = 5150 + (uint64_t)k;
+                static char base[1200];
+                char path[400];
+                FILE* f;
+                const char* alpha = protein ? "LKWAVDEGST" : "ACGT";
+                sh_random_seq(&st, alpha, w, base);
+                a->n = 4;
+                a->rows = malloc(sizeof(char*) * 4);
+                a->names = malloc(sizeof(char*) * 4);
+                for(i = 0; i < 4; i++){
+                        char nm[16];
+                        a->rows[i] = malloc((size_t)w + 1);
+                        for(j = 0; j < w; j++){
+                                char ch = base[j];
+                                /* row 1: gap run directly before its residue index 512; row 2: the same at 1024 (w = 1100) or at 300;
+                                   row 3: exactly 512 residues, then gaps to the end */
+                                if(i == 1 && j >= 512 && j < 512 + runlen){
+                                        ch = '-';
+                                }
+                                if(i == 2 && j >= ((w > 1100 - 1) ? 1024 : 300) && j < ((w > 1100 - 1) ? 1024 : 300) + runlen){
+                                        ch = '-';
+                                }
+                                if(i == 3 && j >= 512){
+                                        ch = '-';
+                                }
+                                a->rows[i][j] = ch;
+                        }
+                        a->rows[i][w] = 0;
+                        snprintf(nm, sizeof nm, "long%d", i);
+                        a->names[i] = strdup(nm);
+                }
+                snprintf(path, sizeof path, "%s/af_long.afa", tmpdir);
+                f = fopen(path, "w");
+                for(i = 0; i < 4; i++){
+                        fprintf(f, ">%s\n", a->names[i]);
+                        for(j = 0; j < w; j += 60){
+                                fprintf(f, "%.60s\n", a->rows[i] + j);
+                        }
+                }
+                fclose(f);
+                a->width = w;
+                a->from_file = 1;
+                a->protein = protein;
+                if(kalign_read_input(path, &a->m, 1) != OK || !a->m){
+                        a->m = NULL;
+                        return -1;
+                }
+                a->protein = (a->m->biotype == ALN_BIOTYPE_PROTEIN);
+                a->valid = 1;
+                return 1;
         }else{
                 uint64_t k = idx - af_count_run();
                 int r, c, i, j;
